@@ -424,7 +424,9 @@ class GreedySelector(SelectorMixin, MetaEstimatorMixin, BaseEstimator):
         self.selected_idx_[: self.n_selected_] = old_idx
 
     def _get_best_new_selection(self, scorer, X, y):
-        scores = scorer(X, y)
+        scores = np.array(scorer(X, y), dtype=float)
+        # never re-select an already selected feature or sample
+        scores[self.selected_idx_[: self.n_selected_]] = -np.inf
 
         max_score_idx = np.argmax(scores)
         if self.score_threshold is not None:
